@@ -22,11 +22,11 @@ CHECKS = {
    note=SIM_NOTE),
  "C04": dict(engine="sim", cat="exploration", ref="DESIGN.md 4/C04",
    tech="runtime monitoring: event log with unique sequence numbers; wire-stamp decode at send, in-app observers at delivery; ordering oracle update-tick >= stamp, entity resolution vs. entity map",
-   text="Every dependent server event/trigger carries a harness sequence number; its tick stamp is decoded when it leaves the server and compared with the last update message sent to that client; at delivery the client's update tick must have reached the stamp and referenced entities must resolve through the client's map. Events overtake 1..n held update messages.",
+   text="Every dependent server event/trigger carries a harness sequence number; its tick stamp is decoded when it leaves the server and compared with the last update message sent to that client; at delivery the client's update tick must have reached the stamp, the transport must actually have handed the update message of that tick to the client in the current session (independent of what the client reports), and referenced entities must resolve through the client's map. Events overtake 1..n held update messages; sessions end and servers restart.",
    note=SIM_NOTE),
  "C05": dict(engine="sim", cat="exploration", ref="DESIGN.md 4/C05",
    tech="runtime monitoring: offline-style checker over the delivery log (exactly-once / at-most-once, recipients per send mode fixed at the processing frame, per-type order, sender identity, no cross-session delivery)",
-   text="Unique sequence numbers make the history unambiguous; the model is a map event -> intended recipient sessions. Duplicates, foreign recipients, order inversions on ordered channels, wrong sender identity, deliveries from a previous session and undelivered reliable events after quiescence are violations.",
+   text="Unique sequence numbers make the history unambiguous; the model is a map event -> intended recipient sessions. Duplicates, foreign recipients, order inversions on ordered channels, wrong sender identity, deliveries from a previous session and undelivered reliable events after quiescence are violations. Client game logic also emits a greeting event on the very frame the connection comes up.",
    note=SIM_NOTE),
  "C07": dict(engine="sim", cat="exploration", ref="DESIGN.md 4/C07",
    tech="runtime monitoring: per-message monitor on RepliconServer::drain_sent (no replication / dependent-event bytes for clients without AuthorizedClient), handshake outcome monitor, convergence after authorization",
@@ -50,11 +50,11 @@ CHECKS = {
    note=SIM_NOTE),
  "C12": dict(engine="sim", cat="exploration", ref="DESIGN.md 4/C12",
    tech="runtime monitoring: (a) public API of ConfirmHistory/ServerMutateTicks/RepliconTick against a plain set model over boundary + random confirmation sequences, (b) MutateTickReceived against the delivery record end to end",
-   text="Model part: after every confirmation step every membership/range query in a +-70 tick neighbourhood is compared with a BTreeSet of confirmed ticks (older than the window = confirmed), across the u32 wrap and gaps >= 64. End-to-end part: a tick may be reported fully received exactly once and only when all mutate messages the wire count announced were delivered.",
+   text="Model part: after every confirmation step every membership/range query in a +-70 tick neighbourhood is compared with a BTreeSet of confirmed ticks (older than the window = confirmed), across the u32 wrap and gaps >= 64. End-to-end part: a tick may be reported fully received exactly once and only when all mutate messages the wire count announced were delivered and applied (none of them still waits for an update tick the client has not reached).",
    note=SIM_NOTE),
  "C16": dict(engine="sim", cat="exploration", ref="DESIGN.md 4/C16",
    tech="runtime monitoring: per-client-frame check of registered (server entity, pre-spawned client entity) pairs against ServerEntityMap and marked-entity census",
-   text="Pre-spawn + mapping ops at arbitrary points of a tick window with extra traffic; after every client frame a mapped server entity must resolve to the pre-spawned entity (or to a fresh one if the client despawned it), no marked entity may exist outside the map, other clients' structure is checked by C03.",
+   text="Pre-spawn + mapping ops at arbitrary points of a tick window with extra traffic, with the mapping registered in the tick of first visibility or in an earlier one, and adoption of never-replicated existing entities; after every client frame a mapped server entity must resolve to the pre-spawned entity (or to a fresh one if the client despawned it), no marked entity may exist outside the map, other clients' structure is checked by C03.",
    note=SIM_NOTE),
 }
 
@@ -62,7 +62,7 @@ PURE_NOTE = "Trusted base: the engine source under harness/src/bin and harness/s
 CHECKS.update({
  "C06": dict(engine="c06", cat="exploration", ref="DESIGN.md 4/C06",
    tech="runtime monitoring with sanitizer-style oracles: hostile byte strings fed to the real server App one per frame under catch_unwind, a counting global allocator (largest / total request per message), process-death detection by the driver, overflow-check (debug-assert) and release lanes, service check through a well-behaved client",
-   text="Exhaustive over all byte strings of length <=2 (quick) / <=3 (thorough) per channel and sender, structure-aware generation beyond (inflated length fields, boundary entity bits, truncation, over-long varints, batches interleaved with legitimate traffic and connects/disconnects). A panic escaping App::update, an allocation request out of proportion, a dead worker process, or a well-behaved client that stops converging are violations. Both arithmetic lanes run because overflow behaviour differs between them.",
+   text="Exhaustive over all byte strings of length <=2 (quick) / <=3 (thorough) per channel and sender, structure-aware generation beyond (inflated length fields, boundary entity bits, truncation, over-long varints, batches interleaved with legitimate traffic and connects/disconnects). A panic escaping App::update, an allocation request out of proportion, a dead worker process, a server frame that does not return within 20 s (watchdog), a legitimate event queued behind the hostile bytes in the same frame that is not handled, or a well-behaved client that stops converging are violations. Both arithmetic lanes run because overflow behaviour differs between them.",
    note=PURE_NOTE + " Exhaustiveness holds only for the short-input blocks; everything longer is sampled. Miri/valgrind lanes are auxiliary (DESIGN.md 3.6)."),
  "C13": dict(engine="c13", cat="exploration", ref="DESIGN.md 4/C13",
    tech="runtime monitoring: single-App state machine over {singleplayer, listen server, client connecting/connected, dedicated server} with per-event handling counters (remote sends decoded from RepliconClient::drain_sent + local observations by in-app readers/observers)",
